@@ -327,6 +327,10 @@ class Contract:
         self.inline: bool = kw.pop("inline", False)
         self.variant_of: Optional[str] = kw.pop("variant_of", None)
         self.body_slice: Optional[tuple] = kw.pop("body_slice", None)
+        # callback calls made on a normal return, in order: [(callable contract name, [argument expressions])]
+        self.calls: Optional[List[tuple]] = kw.pop("calls", None)
+        # callee name -> name of the contract to use for it while verifying THIS function (contract views)
+        self.use: Dict[str, str] = kw.pop("use", {})
         if kw:
             raise TypeError(f"unknown contract keys {list(kw)}")
 
@@ -335,6 +339,8 @@ CONTRACTS: Dict[str, Contract] = {}
 PREDICATES: Dict[str, Tuple[List[str], str]] = {}
 FIELD_TYPES: Dict[str, tuple] = {}  # "Class.field" -> type descriptor (data-structure invariant)
 CLASS_FIELDS: Dict[str, List[str]] = {}
+SPEC_CONSTS: Dict[str, Any] = {}  # names usable in contract clauses (python objects of the real modules)
+CLASS_METHODS: Dict[str, Dict[str, str]] = {}  # pseudo-classes (e.g. re.Match): method name -> contract name
 
 
 def contract(name, **kw) -> Contract:
@@ -453,3 +459,38 @@ def solve_vc(vc: VC, timeout_ms=10000):
     except Exception as e:  # pragma: no cover
         detail += f"; cvc5 failed: {e!r}"
     return core.UNDECIDED, detail, None, time.time() - t0
+
+
+def solve_all(vcs: List[VC], timeout_ms=10000):
+    """Solve VCs in generation order with one incremental solver: consecutive VCs of a path share a growing
+    prefix of hypotheses.  Yields (vc, status, detail, seconds)."""
+    s = z3.Solver()
+    s.set("timeout", timeout_ms)
+    cur: List[int] = []
+    for vc in vcs:
+        t0 = time.time()
+        ids = [h.get_id() for h in vc.hyps]
+        if ids[: len(cur)] != cur:
+            s = z3.Solver()
+            s.set("timeout", timeout_ms)
+            cur = []
+        for h in vc.hyps[len(cur):]:
+            s.add(h)
+        cur = ids
+        g = z3.simplify(vc.goal)
+        if z3.is_true(g):
+            yield vc, core.DISCHARGED, "trivial", time.time() - t0
+            continue
+        s.push()
+        for h in instantiate(vc.schemas, vc.idx_terms):
+            s.add(h)
+        s.add(z3.Not(vc.goal))
+        r = s.check()
+        if r == z3.unsat:
+            s.pop()
+            yield vc, core.DISCHARGED, "z3: unsat", time.time() - t0
+            continue
+        s.pop()
+        # not settled incrementally: decide it on its own (model / second solver)
+        st, det, m, dt = solve_vc(vc, timeout_ms)
+        yield vc, st, det, time.time() - t0
